@@ -67,6 +67,16 @@ CLAIMED = {
             '(baud, bit rate) order among those fitting the spacing; penalty tables normalised at load.',
             'floats as reals; 2-4 channels; concrete penalty tables and tx/add-drop OSNR in the verdict harness; LineStub environment stub',
             'DESIGN.md §2 C13'),
+    'C15': ('symx+fp-lemma',
+            'bounded symbolic execution of the real OMS/bitmap construction code with z3 (symbolic cells, symbolic slot numbers '
+            'value-forked) plus bit-precise QF_BVFP lemmas (z3 and cvc5) translated from the current source of the index conversions',
+            'align_grids/insert_left/insert_right keep indices contiguous+unique and every cell at its slot; create_oms_bitmap + '
+            'update_spectrum succeed and mark FREE exactly the slots common to the OMS amplifiers (1-2 bands each) for all band edges in '
+            'the bound; build_oms_list partitions every generated 3-ROADM network (36 direction patterns x layouts x bands) into '
+            'ROADM-to-ROADM OMS with correct pairing and one common slot range; frequency_to_n/nvalue_to_frequency/slots_to_m/'
+            'mvalue_to_slots/m_to_freq round-trip exactly in binary64 for |n|<=4096, m<=512.',
+            'slot numbers within [-5,5] (quick) / [-8,8]; band edges on the 6.25 GHz grid; 3 ROADM sites; z3, cvc5, symx trusted',
+            'DESIGN.md §2 C15'),
     'C14': ('symx',
             'bounded symbolic execution of the real spectrum-assignment code on bitmaps of symbolic cells with z3 (inductive step '
             'over request histories); models replayed on the real code',
